@@ -124,6 +124,13 @@ func (tr *FnTr) staticCall(x ssa.Value, f *ssa.Function, cc *ssa.CallCommon, fre
 		if ct.Inline {
 			return tr.inline(x, f, args, free, name)
 		}
+		if len(ct.InlineIn) > 0 && tr.top.fn != nil && tr.top.fn.Pkg != nil && len(f.Blocks) > 0 {
+			for _, sfx := range ct.InlineIn {
+				if strings.HasSuffix(tr.top.fn.Pkg.Pkg.Path(), sfx) {
+					return tr.inline(x, f, args, free, name)
+				}
+			}
+		}
 		return tr.contractCall(x, f, ct, args)
 	}
 	if free != nil || tr.eng.autoInline(f) {
